@@ -19,6 +19,7 @@ import (
 	cidprimary "github.com/ipld/go-storethehash/store/primary/cid"
 	mhprimary "github.com/ipld/go-storethehash/store/primary/multihash"
 	"github.com/ipld/go-storethehash/store/types"
+	"github.com/ipld/go-storethehash/store/verifhook"
 )
 
 var log = logging.Logger("storethehash")
@@ -194,12 +195,15 @@ func translateIndex(ctx context.Context, indexPath string, primary primary.Prima
 	log.Infof("Translated %d index records", count)
 
 	log.Info("Replacing old index files with new")
+	verifhook.At("translate.copied")
 	if err = newIndex.Close(); err != nil {
 		return fmt.Errorf("error closing new index: %w", err)
 	}
+	verifhook.At("translate.new_closed")
 	if err = oldIndex.Close(); err != nil {
 		return fmt.Errorf("error closing old index: %w", err)
 	}
+	verifhook.At("translate.old_closed")
 
 	// Create a temp directory for the old index files and move them there.
 	oldTmp, err := os.MkdirTemp(indexDir, "old_index")
@@ -209,16 +213,19 @@ func translateIndex(ctx context.Context, indexPath string, primary primary.Prima
 	if err = index.MoveFiles(indexPath, oldTmp); err != nil {
 		return fmt.Errorf("cannot move old index files: %w", err)
 	}
+	verifhook.At("translate.old_moved")
 
 	// Move the new index file from the temp directory to the index directory.
 	if err = index.MoveFiles(newIndexPath, indexDir); err != nil {
 		return fmt.Errorf("cannot move new index files: %w", err)
 	}
+	verifhook.At("translate.new_moved")
 
 	// Remove the old index files.
 	if err = os.RemoveAll(oldTmp); err != nil {
 		return fmt.Errorf("cannot remove old index files: %w", err)
 	}
+	verifhook.At("translate.old_removed")
 
 	log.Infof("Finished translating index to %d bit prefix", indexSizeBits)
 	return nil
@@ -288,6 +295,7 @@ func (s *Store) Close() error {
 		close(s.closing)
 		<-s.closed
 	}
+	verifhook.At("store.close.flusher_stopped")
 
 	cerr := s.Err()
 
@@ -295,13 +303,16 @@ func (s *Store) Close() error {
 	if err != nil {
 		cerr = err
 	}
+	verifhook.At("store.close.index_closed")
 	if err = s.index.Primary.Close(); err != nil {
 		cerr = err
 	}
+	verifhook.At("store.close.primary_closed")
 	s.fileCache.Clear()
 	if err = s.freelist.Close(); err != nil {
 		cerr = err
 	}
+	verifhook.At("store.close.freelist_closed")
 
 	return cerr
 }
@@ -323,6 +334,7 @@ func (s *Store) Get(key []byte) ([]byte, bool, error) {
 	if !found {
 		return nil, false, nil
 	}
+	verifhook.At("store.get.lookup_done")
 
 	primaryKey, value, err := s.getPrimaryKeyData(fileOffset, indexKey)
 	if err != nil {
@@ -368,6 +380,7 @@ func (s *Store) Put(key []byte, value []byte) error {
 	var storedKey []byte
 	var storedVal []byte
 	var cmpKey bool
+	verifhook.At("store.put.lookup_done")
 	if found {
 		storedKey, storedVal, err = s.getPrimaryKeyData(prevOffset, indexKey)
 		if err != nil {
@@ -396,10 +409,12 @@ func (s *Store) Put(key []byte, value []byte) error {
 	// Put value in primary storage first. In primary storage we put
 	// the key, not the indexKey. The storage knows how to manage the key
 	// under the hood while the index is primary storage-agnostic.
+	verifhook.At("store.put.primary_read_done")
 	fileOffset, err := s.index.Primary.Put(key, value)
 	if err != nil {
 		return err
 	}
+	verifhook.At("store.put.primary_put_done")
 
 	// If the key being set is not found, or the stored key is not equal
 	// (even if same prefix is shared @index), we put the key without updates
@@ -414,11 +429,13 @@ func (s *Store) Put(key []byte, value []byte) error {
 		if err = s.index.Update(indexKey, fileOffset); err != nil {
 			return err
 		}
+		verifhook.At("store.put.index_done")
 		// Add outdated data in primary storage to freelist
 		if err = s.freelist.Put(prevOffset); err != nil {
 			return err
 		}
 	}
+	verifhook.At("store.put.done")
 
 	s.flushTick()
 
@@ -447,6 +464,7 @@ func (s *Store) Remove(key []byte) (bool, error) {
 	if !found {
 		return false, nil
 	}
+	verifhook.At("store.remove.lookup_done")
 
 	// If found, get the key and value stored in primary to see if it is the
 	// same (index only stores prefixes).
@@ -459,10 +477,12 @@ func (s *Store) Remove(key []byte) (bool, error) {
 		return false, nil
 	}
 
+	verifhook.At("store.remove.primary_read_done")
 	removed, err := s.index.Remove(storedKey)
 	if err != nil {
 		return false, err
 	}
+	verifhook.At("store.remove.index_done")
 	if removed {
 		// Mark slot in freelist
 		err = s.freelist.Put(offset)
@@ -528,6 +548,7 @@ func (s *Store) flushTick() {
 	flushRate := s.flushRate
 	lastFlush := s.lastFlush
 	s.rateLk.Unlock()
+	verifhook.At("store.flushtick.measured")
 
 	if flushRate == 0 {
 		// Do not know the flush rate yet.
@@ -551,6 +572,7 @@ func (s *Store) flushTick() {
 	// to come in and be stored in memory faster that flushes could handle it,
 	// leading to memory exhaustion.
 	if inRate > flushRate {
+		verifhook.At("store.flushtick.decided")
 		// Get a channel that broadcasts next flush completion.
 		s.rateLk.Lock()
 		if s.flushNotice == nil {
@@ -558,6 +580,7 @@ func (s *Store) flushTick() {
 		}
 		flushNotice := s.flushNotice
 		s.rateLk.Unlock()
+		verifhook.At("store.flushtick.registered")
 
 		// Trigger flush now, non-blocking.
 		select {
@@ -569,7 +592,9 @@ func (s *Store) flushTick() {
 		}
 
 		// Wait for next flush to complete.
+		verifhook.At("store.flushtick.waiting")
 		<-flushNotice
+		verifhook.At("store.flushtick.released")
 	}
 }
 
@@ -578,14 +603,17 @@ func (s *Store) commit() (types.Work, error) {
 	if err != nil {
 		return 0, err
 	}
+	verifhook.At("store.commit.primary_done")
 	indexWork, err := s.index.Flush()
 	if err != nil {
 		return 0, err
 	}
+	verifhook.At("store.commit.index_done")
 	flWork, err := s.freelist.Flush()
 	if err != nil {
 		return 0, err
 	}
+	verifhook.At("store.commit.freelist_done")
 	if s.syncOnFlush {
 		// finalize disk writes
 		if err = s.index.Primary.Sync(); err != nil {
@@ -613,10 +641,13 @@ func (s *Store) Flush() error {
 	s.rateLk.Lock()
 	s.lastFlush = lastFlush
 	s.rateLk.Unlock()
+	verifhook.At("store.flush.stamped")
 
 	if !s.outstandingWork() {
+		verifhook.At("store.flush.nowork")
 		return nil
 	}
+	verifhook.At("store.flush.checked")
 
 	work, err := s.commit()
 	if err != nil {
@@ -629,6 +660,7 @@ func (s *Store) Flush() error {
 		elapsed := now.Sub(lastFlush)
 		rate = math.Ceil(float64(work) / elapsed.Seconds())
 	}
+	verifhook.At("store.flush.committed")
 
 	s.rateLk.Lock()
 	if rate != 0 {
@@ -639,6 +671,7 @@ func (s *Store) Flush() error {
 		s.flushNotice = nil
 	}
 	s.rateLk.Unlock()
+	verifhook.At("store.flush.notified")
 
 	return nil
 }
